@@ -139,25 +139,7 @@ def run(fx, tier):
                 'set_dup is reserved to the reply continuations of the PUBLISH stage',
                 key='C03:R-OWN:set_dup<-%s::%s(%s)' % (caller.cls, caller.n, caller.tag),
                 where='%s:%d' % (caller.path_file(), line))
-    seen_sd = False
-    for f in fx.fns:
-        if f.cls != 'control_packet' or f.d.get('ctor') or f.lam:
-            continue
-        for b, i, l, x in f.elements():
-            x = f.resolve({'k': 'elem', 'b': b, 'i': i})
-            if isinstance(x, dict) and x.get('k') == 'assign':
-                if f.n == 'set_dup':
-                    seen_sd = True
-                    ok = x.get('op') == '|=' and peval(x.get('r')) == 8
-                    v.check(ok, 'R-OWN', 'control_packet::set_dup write [%s]' % f.tu,
-                            'the only write to the stored packet is byte0 %s %s' % (x.get('op'), peval(x.get('r'))),
-                            key='C03:R-OWN:set_dup:write', where='%s:%d' % (f.path_file(), l))
-                else:
-                    v.fail('R-OWN', 'control_packet::%s writes [%s]' % (f.n, f.tu),
-                           'stored packet bytes written outside set_dup', where='%s:%d' % (f.path_file(), l),
-                           key='C03:R-OWN:control_packet::%s:write' % f.n)
-    if not seen_sd:
-        raise AnalysisBroken('control_packet::set_dup write not found')
+    set_dup_rule(fx, v, 'C03')
     v.expect_min('R-CGRAPH', 30, 'paths of QoS 2 states')
     v.expect_min('R-FLOW', 40, 'send paths')
     v.expect_min('R-OWN', 10, 'set_dup callers/writes × TUs')
@@ -165,3 +147,81 @@ def run(fx, tier):
         'The QoS 2 sender is a finite continuation graph extracted from the instantiated operator() overloads; '
         'the property clauses are graph/path queries: unreachability of PUBLISH states after the PUBREC success '
         'edge, DUP marking exactly on re-sends whose earlier write completed, reuse of the stored packet object.')
+
+
+def set_dup_rule(fx, v, prop):
+    """shared by C03 (DUP marking) and C01 (the acknowledged PUBLISH is the one the caller passed):
+    control_packet::set_dup changes the stored packet by exactly byte0 |= 0x08, and nothing else in
+    control_packet writes the stored bytes.  Decided by folding the extracted set_dup (with the accessors it
+    calls) over all 256 first bytes of a two-byte packet model."""
+    from pyfn import compile_fn, NotCompilable
+
+    class Ptr:
+        __slots__ = ('buf', 'i')
+
+        def __init__(self, buf, i):
+            self.buf, self.i = buf, i
+
+        def get(self):
+            b = self.buf[self.i]
+            return b - 256 if b > 127 else b          # char is signed here
+
+        def set(self, v_):
+            self.buf[self.i] = v_ & 0xFF
+    seen_tu = set()
+    n = 0
+    for f in fx.fns:
+        if f.cls != 'control_packet' or f.d.get('ctor') or f.lam:
+            continue
+        writes = [(l, x) for b, i, l, x in ((b, i, l, f.resolve({'k': 'elem', 'b': b, 'i': i})) for b, i, l, _ in f.elements())
+                  if isinstance(x, dict) and x.get('k') == 'assign']
+        if f.n != 'set_dup':
+            for l, x in writes:
+                v.fail('R-OWN', 'control_packet::%s writes [%s]' % (f.n, f.tu), 'stored packet bytes written outside set_dup',
+                       where='%s:%d' % (f.path_file(), l), key='%s:R-OWN:control_packet::%s:write' % (prop, f.n))
+            continue
+        if f.tu in seen_tu:
+            continue
+        seen_tu.add(f.tu)
+        n += 1
+        hooks = {
+            'op->:std::unique_ptr::operator->': lambda o: o,
+            'op->:boost::detail::sp_alloc_ptr::operator->': lambda o: o,
+            'std::basic_string::data': lambda o: Ptr(o, 0),
+            'std::unique_ptr::operator->': lambda o: o,
+        }
+        try:
+            for g in fx.fns:
+                if g.cls == 'control_packet' and g.tu == f.tu and g.n in ('control_code', 'qos', 'packet_id', 'size') and not g.lam and g.ct == f.ct:
+                    try:
+                        hooks[g.n] = (lambda pg: (lambda this, *a: pg(this, *a)))(compile_fn(g, dict(hooks), with_this=True))
+                    except NotCompilable:
+                        pass
+            pf = compile_fn(f, hooks, with_this=True)
+        except NotCompilable as ex:
+            raise AnalysisBroken('control_packet::set_dup is outside the evaluable fragment: %s' % ex)
+        bad = None
+        n_pub = 0
+        for b0 in range(256):
+            for b1 in (0x00, 0x7F, 0xFF):
+                buf = bytearray([b0, b1])
+                try:
+                    pf({'_packet': buf})
+                except AssertionError:
+                    continue                    # BOOST_ASSERT(control_code() == publish): not a PUBLISH
+                except NotCompilable as ex:
+                    raise AnalysisBroken(str(ex))
+                if (b0 & 0xF0) != 0x30:
+                    continue
+                n_pub += 1
+                if buf[0] != (b0 | 0x08) or buf[1] != b1:
+                    bad = 'first byte 0x%02x becomes 0x%02x (expected 0x%02x: only the DUP bit set; type, QoS and RETAIN kept)%s' % (
+                        b0, buf[0], b0 | 0x08, '' if buf[1] == b1 else '; the second byte changed too')
+                    break
+            if bad:
+                break
+        v.check(bad is None and n_pub >= 16, 'R-OWN', 'control_packet::set_dup write [%s]' % f.tu,
+                'for every PUBLISH first byte (%d evaluated) set_dup yields byte0 | 0x08 and touches nothing else' % n_pub if bad is None else bad,
+                key='%s:R-OWN:set_dup:write' % prop, where=f.file)
+    if n == 0:
+        raise AnalysisBroken('control_packet::set_dup not found')
